@@ -125,11 +125,11 @@ def build_block(targets, actions, ndyn, seed, neuron, utilities=None, mutual_inh
         na = len(actions)
         ufun = [(lambda i: (lambda t_: float(utilities(t_)[i])))(i) if utilities else (lambda t_: 0.0) for i in range(na)]
         unodes = [nengo.Node(ufun[i]) for i in range(na)]
-        # the utility of action i reaches the block in one of four ways (i mod 4): input on the handle ifmax returns, a scalar
+        # the utility of action i reaches the block in one of six ways (i mod 6): input on the handle ifmax returns, a scalar
         # module as the condition, a scaled scalar expression, a dot product of a module output with a symbol
         uconds = []
         for i in range(na):
-            form = (i + len(actions[0])) % 4
+            form = (i + len(actions[0])) % 6
             if form == 0:
                 uconds.append(("handle", 0))
             elif form == 1:
@@ -144,9 +144,25 @@ def build_block(targets, actions, ndyn, seed, neuron, utilities=None, mutual_inh
                     um = spa.Scalar()
                 nengo.Connection(unodes[i], um.input, synapse=None, transform=2.0)
                 uconds.append(("expr", 0.5 * um))
-            else:
+            elif form == 3:
                 ut = spa.Transcode((lambda f: (lambda t_: f(t_) * np.eye(D)[0]))(ufun[i]), output_vocab=voc)
                 uconds.append(("expr", spa.dot(ut, spa.sym.E0)))
+            elif form == 4:
+                # a sum of scalar expressions scaled as a whole: 0.25 * (2u + 2u)
+                with nengo.Config(nengo.Ensemble) as cfg:
+                    cfg[nengo.Ensemble].neuron_type = nengo.Direct()
+                    um1, um2 = spa.Scalar(), spa.Scalar()
+                nengo.Connection(unodes[i], um1.input, synapse=None, transform=2.0)
+                nengo.Connection(unodes[i], um2.input, synapse=None, transform=2.0)
+                uconds.append(("expr", 0.25 * (um1 + um2)))
+            else:
+                # a number minus a module: 1 - (1 - u)
+                with nengo.Config(nengo.Ensemble) as cfg:
+                    cfg[nengo.Ensemble].neuron_type = nengo.Direct()
+                    um = spa.Scalar()
+                nengo.Connection(unodes[i], um.input, synapse=None, transform=-1.0)
+                nengo.Connection(nengo.Node(1.0), um.input, synapse=None)
+                uconds.append(("expr", 1.0 - um))
         with spa.ActionSelection() as acts:
             for i, effs in enumerate(actions):
                 routes = []
